@@ -5,7 +5,7 @@ import random
 from vt import core, tlaval
 from vt import profile_util as pu
 
-NASTY = ['"a\\"b"', '"x;y{z}#w"', '"\\\\"', '"line\\nbreak"', '"\\x41\\u0042"', '"it\'s"', '""', '"tab\\t"', '"/a /b,/c"', '"%windir%\\\\sys"']
+NASTY = [r'"\\\\"', r'"dir\\\\\\"', r'"a\\\"b\\\\"', '"a\\"b"', '"x;y{z}#w"', '"\\\\"', '"line\\nbreak"', '"\\x41\\u0042"', '"it\'s"', '""', '"tab\\t"', '"/a /b,/c"', '"%windir%\\\\sys"']
 
 
 def model_cfg(q):
